@@ -132,30 +132,35 @@ def crosses : Side → Nat → Nat → Bool
   | .bid, price, best => decide (price ≥ best)
   | .ask, price, best => decide (price ≤ best)
 
+/-- One iteration of the match loop against the passive entry `m` with id `id`:
+the book after the fill and the updated aggressor. -/
+def fillStep (sd : Side) (b : Book) (e : Entry) (id : Nat) (m : Entry) : Book × Entry :=
+  let r := matchOrders b.t e.order m.order
+  let tv := r.2.2.2
+  let m' : Entry := { m with order := r.2.1 }
+  let opp := b.side sd.opp
+  let opp' :=
+    if r.2.1.status = .filled then opp.removeOrder m'.key.pk m'.key.st tv
+    else opp.removeVol m'.key.pk tv
+  ({ (b.setSide sd.opp opp') with
+        orders := b.orders.set id m',
+        trades := b.trades ++ [r.2.2.1],
+        tradeVol := b.tradeVol + tv,
+        fault := b.fault || decide (b.tradeVol + tv ≥ P32) },
+   { e with order := r.1 })
+
 /-- `match_bid` (`sd = .bid`, walks the ask side) / `match_ask` (`sd = .ask`).
 `fuel` bounds the loop; running out of fuel is reported as a fault. -/
 def matchLoop (sd : Side) : Nat → Book → Entry → Book × Entry
   | 0, b, e => ({ b with fault := true }, e)
   | fuel + 1, b, e =>
-    let opp := b.side sd.opp
-    if e.order.vol > 0 && crosses sd e.order.price (bestPrice sd.opp opp) then
-      match opp.bestOrderIdx with
+    if e.order.vol > 0 && crosses sd e.order.price (bestPrice sd.opp (b.side sd.opp)) then
+      match (b.side sd.opp).bestOrderIdx with
       | none => (b, e)
       | some id =>
         match b.orders[id]? with
         | none => ({ b with fault := true }, e)
-        | some m =>
-          let (agg, pass, tr, tv) := matchOrders b.t e.order m.order
-          let m' : Entry := { m with order := pass }
-          let opp' :=
-            if pass.status = .filled then opp.removeOrder m'.key.pk m'.key.st tv
-            else opp.removeVol m'.key.pk tv
-          let b' := { (b.setSide sd.opp opp') with
-                        orders := b.orders.set id m',
-                        trades := b.trades ++ [tr],
-                        tradeVol := b.tradeVol + tv,
-                        fault := b.fault || decide (b.tradeVol + tv ≥ P32) }
-          matchLoop sd fuel b' { e with order := agg }
+        | some m => matchLoop sd fuel (fillStep sd b e id m).1 (fillStep sd b e id m).2
     else (b, e)
 
 /-- Fuel that always suffices: every iteration that continues fills one resting order. -/
@@ -164,28 +169,35 @@ def matchFuel (b : Book) (sd : Side) : Nat := (b.side sd.opp).orders.length + 2
 def matchSide (sd : Side) (b : Book) (e : Entry) : Book × Entry :=
   matchLoop sd (matchFuel b sd) b e
 
-/-- `next_queue_stamp`. -/
-def nextStamp (b : Book) : Book × Nat := ({ b with stamp := b.stamp + 1 }, b.stamp)
+/-- Match only while trading is enabled. -/
+def matchIfTrading (sd : Side) (b : Book) (e : Entry) : Book × Entry :=
+  if b.trading then matchSide sd b e else (b, e)
+
+/-- Queue the (unfilled) entry on its own side under price key `pk` with the next stamp
+(`next_queue_stamp` + `insert_order`), recording the key in the entry. -/
+def enqueue (sd : Side) (b : Book) (e : Entry) (pk : Nat) : Book × Entry :=
+  let b1 : Book := { b with stamp := b.stamp + 1 }
+  (b1.setSide sd ((b1.side sd).insertOrder pk b.stamp e.order.id e.order.vol),
+   { e with key := ⟨sd, pk, b.stamp⟩ })
+
+/-- Queue unless filled. -/
+def restUnlessFilled (sd : Side) (r : Book × Entry) (pk : Nat) : Book × Entry :=
+  if r.2.order.status ≠ .filled then enqueue sd r.1 r.2 pk else r
 
 /-- `place_bid_limit` / `place_ask_limit`. -/
 def placeLimit (sd : Side) (b : Book) (e : Entry) : Book × Entry :=
-  let (b, e) := if b.trading then matchSide sd b e else (b, e)
-  if e.order.status ≠ .filled then
-    let (b, st) := b.nextStamp
-    let key : Key := ⟨sd, e.key.pk, st⟩
-    let e := { e with key := key }
-    (b.setSide sd ((b.side sd).insertOrder key.pk key.st e.order.id e.order.vol), e)
-  else (b, e)
+  restUnlessFilled sd (matchIfTrading sd b e) e.key.pk
+
+/-- Mark the remainder of a market order Cancelled. -/
+def cancelRemainder (r : Book × Entry) : Book × Entry :=
+  if r.2.order.status ≠ .filled then
+    (r.1, { r.2 with order := { r.2.order with status := .cancelled, endt := r.1.t } })
+  else r
 
 /-- `place_bid_market` / `place_ask_market`. -/
 def placeMarket (sd : Side) (b : Book) (e : Entry) : Book × Entry :=
-  if b.trading then
-    let (b, e) := matchSide sd b e
-    if e.order.status ≠ .filled then
-      (b, { e with order := { e.order with status := .cancelled, endt := b.t } })
-    else (b, e)
-  else
-    (b, { e with order := { e.order with status := .rejected, endt := b.t } })
+  if b.trading then cancelRemainder (matchSide sd b e)
+  else (b, { e with order := { e.order with status := .rejected, endt := b.t } })
 
 /-- Is this entry a market order (`price == Price::MAX` for a bid, `== 0` for an ask)? -/
 def isMarket (o : Order) : Bool :=
@@ -193,24 +205,32 @@ def isMarket (o : Order) : Bool :=
   | .bid => o.price = MAXP
   | .ask => o.price = 0
 
+/-- The entry as `place_order` marks it before dispatching. -/
+def activate (b : Book) (e : Entry) : Entry :=
+  { e with order := { e.order with status := .active, arr := b.t } }
+
+/-- Dispatch of `place_order` on side and market/limit. -/
+def placeEntry (b : Book) (e : Entry) : Book × Entry :=
+  if isMarket e.order then placeMarket e.order.side b e else placeLimit e.order.side b e
+
+/-- Write the aggressor's copy back into the table (`self.orders[order_id] = order_entry`). -/
+def writeBack (r : Book × Entry) (id : Nat) : Book :=
+  { r.1 with orders := r.1.orders.set id r.2 }
+
 /-- `place_order`. -/
 def placeOrder (b : Book) (id : Nat) : Book :=
   match b.orders[id]? with
   | none => { b with fault := true }
   | some e =>
     if e.order.status ≠ .new then b
-    else
-      let e := { e with order := { e.order with status := .active, arr := b.t } }
-      let (b, e) :=
-        if isMarket e.order then placeMarket e.order.side b e else placeLimit e.order.side b e
-      { b with orders := b.orders.set id e }
+    else writeBack (placeEntry b (activate b e)) id
 
 /-- `create_and_place_order`. -/
 def createAndPlace (b : Book) (sd : Side) (vol trader : Nat) (price : Option Nat) :
     Book × CreateResult :=
-  match b.createOrder sd vol trader price with
-  | (b, .ok id) => (b.placeOrder id, .ok id)
-  | r => r
+  match (b.createOrder sd vol trader price).2 with
+  | .ok id => ((b.createOrder sd vol trader price).1.placeOrder id, .ok id)
+  | .priceError p t => ((b.createOrder sd vol trader price).1, .priceError p t)
 
 /-- `cancel_order`. -/
 def cancelOrder (b : Book) (id : Nat) : Book :=
@@ -218,45 +238,48 @@ def cancelOrder (b : Book) (id : Nat) : Book :=
   | none => { b with fault := true }
   | some e =>
     if e.order.status = .active then
-      let e' := { e with order := { e.order with status := .cancelled, endt := b.t } }
-      let b := { b with orders := b.orders.set id e' }
-      b.setSide e.key.side ((b.side e.key.side).removeOrder e.key.pk e.key.st e.order.vol)
+      let e' : Entry := { e with order := { e.order with status := .cancelled, endt := b.t } }
+      let b' : Book := { b with orders := b.orders.set id e' }
+      b'.setSide e.key.side ((b.side e.key.side).removeOrder e.key.pk e.key.st e.order.vol)
     else b
 
 /-- `reduce_order_vol`. -/
 def reduceOrderVol (b : Book) (e : Entry) (red : Nat) : Book × Entry :=
-  let e' := { e with order := { e.order with vol := e.order.vol - red } }
-  (b.setSide e.key.side ((b.side e.key.side).removeVol e.key.pk red), e')
+  (b.setSide e.key.side ((b.side e.key.side).removeVol e.key.pk red),
+   { e with order := { e.order with vol := e.order.vol - red } })
+
+/-- The book with `e` taken out of its side's queue (`remove_order` with its current volume). -/
+def dequeue (b : Book) (e : Entry) : Book :=
+  b.setSide e.key.side ((b.side e.key.side).removeOrder e.key.pk e.key.st e.order.vol)
 
 /-- `replace_order`. -/
 def replaceOrder (b : Book) (e : Entry) (newPrice newVol : Nat) : Book × Entry :=
-  let sd := e.key.side
-  let b := b.setSide sd ((b.side sd).removeOrder e.key.pk e.key.st e.order.vol)
-  let e := { e with order := { e.order with vol := newVol, price := newPrice } }
-  let (b, e) := if b.trading then matchSide sd b e else (b, e)
-  if e.order.status ≠ .filled then
-    let (b, st) := b.nextStamp
-    let key : Key := ⟨sd, priceKey sd newPrice, st⟩
-    let e := { e with key := key }
-    (b.setSide sd ((b.side sd).insertOrder key.pk key.st e.order.id e.order.vol), e)
-  else (b, e)
+  restUnlessFilled e.key.side
+    (matchIfTrading e.key.side (b.dequeue e)
+      { e with order := { e.order with vol := newVol, price := newPrice } })
+    (priceKey e.key.side newPrice)
+
+/-- A requested new price that is not a multiple of the tick size. -/
+def offGrid (tick : Nat) : Option Nat → Bool
+  | some p => p % tick != 0
+  | none => false
+
+/-- The dispatch of `modify_order` on `(new_price, new_vol)` for an Active order. -/
+def modifyEntry (b : Book) (e : Entry) : Option Nat → Option Nat → Book × Entry
+  | none, none => (b, e)
+  | none, some v =>
+    if v < e.order.vol then reduceOrderVol b e (e.order.vol - v)
+    else replaceOrder b e e.order.price v
+  | some p, none => replaceOrder b e p e.order.vol
+  | some p, some v => replaceOrder b e p v
 
 /-- `modify_order`. -/
 def modifyOrder (b : Book) (id : Nat) (newPrice newVol : Option Nat) : Book :=
   match b.orders[id]? with
   | none => { b with fault := true }
   | some e =>
-    if (match newPrice with | some p => p % b.tick != 0 | none => false) then b
-    else if e.order.status = .active then
-      let (b, e) :=
-        match newPrice, newVol with
-        | none, none => (b, e)
-        | none, some v =>
-          if v < e.order.vol then reduceOrderVol b e (e.order.vol - v)
-          else replaceOrder b e e.order.price v
-        | some p, none => replaceOrder b e p e.order.vol
-        | some p, some v => replaceOrder b e p v
-      { b with orders := b.orders.set id e }
+    if offGrid b.tick newPrice then b
+    else if e.order.status = .active then writeBack (modifyEntry b e newPrice newVol) id
     else b
 
 /-- `process_event`. -/
